@@ -122,8 +122,10 @@ def generate(rng: random.Random, cons: dict) -> dict:
             outdeg[u] += 1
     w["edges"] = sorted(edges)
     # ---- ids on the graph
-    w["ids"] = rng.choice(["computed", "computed", "adopted", "featuredict"])
-    if w["ids"] == "adopted" and ids:
+    # from_tracks: built as a plain Tracks first, then SolutionTracks.from_tracks(); the
+    # "+ids" flavour carries valid track/lineage ids on the graph already
+    w["ids"] = rng.choice(["computed", "computed", "adopted", "featuredict", "from_tracks", "from_tracks+ids"])
+    if w["ids"] in ("adopted", "from_tracks+ids") and ids:
         g = nx.DiGraph()
         g.add_nodes_from(ids)
         g.add_edges_from(edges)
@@ -139,7 +141,7 @@ def generate(rng: random.Random, cons: dict) -> dict:
             "track": {str(n): perm_s[i] * mul + off for i, b in enumerate(segs) for n in b},
             "lineage": {str(n): perm_c[i] * mul + off for i, b in enumerate(comps) for n in b},
         }
-    elif w["ids"] == "adopted":
+    elif w["ids"] in ("adopted", "from_tracks+ids"):
         w["ids"] = "computed"
     # ---- custom static features on a subset of elements
     # falsy values (0.0) on purpose: "if val:" instead of "if val is not None:" is a classic
@@ -206,7 +208,7 @@ def build(w: dict):
                 attrs["loc"] = list(nd["pos"])
             else:
                 attrs["pos"] = list(nd["pos"])
-        if w["ids"] == "adopted":
+        if w["ids"] in ("adopted", "from_tracks+ids"):
             attrs["track_id"] = w["adopt"]["track"][k]
             attrs["lineage_id"] = w["adopt"]["lineage"][k]
         if k in w.get("score", {}):
@@ -222,9 +224,15 @@ def build(w: dict):
     if not w["seg"]:
         pos_attr = {"single": "pos", "renamed": "loc", "per_axis": list(ax)}[pos_mode]
     scale = None if w["scale"] is None else list(w["scale"])
-    tracks = SolutionTracks(
-        g, segmentation=seg, time_attr=tkey, pos_attr=pos_attr, scale=scale, ndim=ndim
-    )
+    if w["ids"].startswith("from_tracks"):
+        from funtracks.data_model import Tracks
+
+        plain = Tracks(g, segmentation=seg, time_attr=tkey, pos_attr=pos_attr, scale=scale, ndim=ndim)
+        tracks = SolutionTracks.from_tracks(plain)
+    else:
+        tracks = SolutionTracks(
+            g, segmentation=seg, time_attr=tkey, pos_attr=pos_attr, scale=scale, ndim=ndim
+        )
     register_custom(tracks)
     if w["enable"]:
         tracks.enable_features(list(w["enable"]))
